@@ -154,6 +154,8 @@ def probe_class(cls, name, specimen):
     except Exception as e:  # could not even build the probe instance
         ent.append(("mixin", name, "probe instance", False, repr(e)))
     if specimen is not None:
+        # the whole payload lives in slots (what __getstate__ saves): nothing in an instance __dict__
+        ent.append(("field", name, "<instance __dict__ empty>", len(getattr(specimen, "__dict__", {})) == 0, ""))
         for s in slots:
             if hasattr(specimen, s):
                 v = getattr(specimen, s)
